@@ -118,27 +118,46 @@ def storedOf (s : String) : Option Stored :=
 def showStored : Stored → String
   | .absent => "absent" | .other => "other" | .bytes r => "b:" ++ hexOrDash r
 
-def step (cfg : Cfg) (mg : Magic) (_ : Unit) (line : String) : Unit × String :=
+/-- rewrite every NaN float leaf to the canonical quiet NaN (7fc00000 / 7ff8000000000000); the
+    same structural walk as `c13Scan` in harness/c13.go: it stops at the first malformed or
+    truncated item and leaves the rest as it is -/
+def canonNaN : Nat → Nat → Bytes → Bytes
+  | _, 0, b => b
+  | 0, _ + 1, b => b
+  | fuel + 1, n + 1, b =>
+    match b with
+    | [] => []
+    | c :: r =>
+      match shape c with
+      | .invalid => b
+      | .fixed k =>
+        if r.length < k then b else
+        let p := r.take k
+        let bits := beNat p
+        let p' :=
+          if c.toNat = 0xca ∧ bits / 2 ^ 23 % 256 = 255 ∧ bits % 2 ^ 23 ≠ 0 then [0x7f, 0xc0, 0, 0]
+          else if c.toNat = 0xcb ∧ f64IsNaN bits then [0x7f, 0xf8, 0, 0, 0, 0, 0, 0]
+          else p
+        c :: p' ++ canonNaN fuel n (r.drop k)
+      | .lenp k e =>
+        match readBE k r with
+        | .error _ => b
+        | .ok (m, r') =>
+          if r'.length < m + e then b
+          else c :: r.take k ++ r'.take (m + e) ++ canonNaN fuel n (r'.drop (m + e))
+      | .mapFix k => c :: canonNaN fuel (n + 2 * k) r
+      | .arrFix k => c :: canonNaN fuel (n + k) r
+      | .mapLen k =>
+        match readBE k r with
+        | .error _ => b
+        | .ok (m, r') => c :: r.take k ++ canonNaN fuel (n + 2 * m) r'
+      | .arrLen k =>
+        match readBE k r with
+        | .error _ => b
+        | .ok (m, r') => c :: r.take k ++ canonNaN fuel (n + m) r'
+
+def stepPf (cfg : Cfg) (mg : Magic) (line : String) : Unit × String :=
   match line.splitOn " " with
-  | ["case", _] => ((), line)
-  | ["parse", h] =>
-    match unhex h with
-    | none => ((), "bad-op")
-    | some b =>
-      match parse b with
-      | .error e => ((), s!"err {e}")
-      | .ok t => ((), "ok " ++ showNode t)
-  | "ap" :: bh :: ch :: opss =>
-    match unhex bh, parseCond ch, parseOps opss with
-    | some body, some cond, some ops =>
-      match applyWithCondition cfg body ops cond with
-      | .error e => ((), s!"err {e}")
-      | .ok out =>
-        let w := wf out
-        let f1 := if w then "" else "\t#F:C13-unvalidated-op-value"
-        let f2 := if nanMet cfg body cond then "\t#F:C13-nan-compares-equal" else ""
-        ((), s!"out {hexOrDash out} wf={if w then 1 else 0}{f1}{f2}")
-    | _, _, _ => ((), "bad-op")
   | "pf" :: sh :: cr :: seedh :: ch :: opss =>
     match storedOf sh, unhex seedh, parseCond ch, parseOps opss with
     | some st, some seed, some cond, some ops =>
@@ -155,6 +174,32 @@ def step (cfg : Cfg) (mg : Magic) (_ : Unit) (line : String) : Unit × String :=
       let f1 := if (s == .patched || s == .created) && !w then "\t#F:C13-unvalidated-op-value" else ""
       ((), s!"st={s.code} {showStored st'} wf={if w then 1 else 0} new={echo}{f1}")
     | _, _, _, _ => ((), "bad-op")
+  | _ => ((), "bad-op")
+
+def step (cfg : Cfg) (mg : Magic) (_ : Unit) (line : String) : Unit × String :=
+  match line.splitOn " " with
+  | ["case", _] => ((), line)
+  | ["parse", h] =>
+    match unhex h with
+    | none => ((), "bad-op")
+    | some b =>
+      match parse b with
+      | .error e => ((), s!"err {e}")
+      | .ok t => ((), "ok " ++ showNode t)
+  | verb :: bh :: ch :: opss =>
+    if verb != "ap" && verb != "apn" then stepPf cfg mg line else
+    match unhex bh, parseCond ch, parseOps opss with
+    | some body, some cond, some ops =>
+      match applyWithCondition cfg body ops cond with
+      | .error e => ((), s!"err {e}")
+      | .ok out =>
+        let w := wf out
+        let f1 := if w then "" else "\t#F:C13-unvalidated-op-value"
+        let f2 := if nanMet cfg body cond then "\t#F:C13-nan-compares-equal" else ""
+        -- `apn`: NaN payload bits are platform-defined; both sides print NaN leaves canonically
+        let shown := if verb == "apn" then canonNaN out.length 1 out else out
+        ((), s!"out {hexOrDash shown} wf={if w then 1 else 0}{f1}{f2}")
+    | _, _, _ => ((), "bad-op")
   | _ => ((), "bad-op")
 
 def run (args : List String) : IO UInt32 := do
